@@ -27,12 +27,15 @@ def spell_out(t, cv, vocab, rng, what):
     rows = {r["key"]: r for r in vocab.tables["pyranose"]}
 
     def conv(name):
-        m = re.match(r"^((?:\d,\d-Anhydro-)?)(D-|L-)?([A-Z][a-z]+)(.*)$", name)
+        m = re.match(r"^((?:\d,\d-Anhydro-)?)(D-|L-)?([A-Z][a-z]+?)((?:Hep|Hex|Oct|Pen)?)((?![a-z]).*)$", name)
         if not m:
             return name
-        pre, dl, code, rest = m.groups()
-        row = rows.get(code.upper())
-        if what == "ring" and row and not rest.startswith(("p", "f")) and code.upper() in vocab.keys_p:
+        pre, dl, code, size, rest = m.groups()
+        if code.upper() not in rows and (code + size).upper() in rows:
+            code, size = code + size, ""
+        code_, code = code, code + size            # the ring letter follows the chain-length name ('ManHepp')
+        row = rows.get(code_.upper())
+        if what == "ring" and row and not rest.startswith(("p", "f")) and code_.upper() in vocab.keys_p:
             return pre + (dl or "") + code + "p" + rest
         if what == "series" and row and dl is None and row["isomer"] in (0, 1) and not rest.startswith("f"):
             return pre + ("D-" if row["isomer"] == 0 else "L-") + code + rest
@@ -120,6 +123,34 @@ def run(rep, tier, driver):
         for k, v in variants.items():
             jobs.append(v)
             meta.append((i, k, ref, has_ketose_short(t, cv)))
+    # directed: residues written with several tokens (chain-length suffix, uronic / amino / deoxy / sulfate / alditol forms), alone,
+    # as child and as parent, with the ring letter and the own series spelled out
+    base_i = n
+    rows_p = {r["key"]: r for r in vocab.tables["pyranose"]}
+    dcodes = [c for c in ["Man", "Glc", "Gal", "Ara", "Xyl", "Fuc", "Rha", "Ido", "Alt", "Tal", "Gul", "All", "Rib", "Lyx", "Qui"] if c.upper() in rows_p]
+    rests = ["Hep", "Oct", "Hex", "A", "N", "NAc", "6S", "2Ac", "-ol", "3Me", "Hep6S", "OctA"]
+    picks = [(c, r) for c in dcodes for r in rests]
+    if tier == "quick":
+        picks = rng.sample(picks, 60)
+    for c, r in picks:
+        nm = c + r
+        for shape in ("alone", "child", "parent"):
+            if shape == "alone":
+                t = gen.T(nm)
+            elif shape == "child":
+                if r == "-ol":
+                    continue
+                t = gen.T("Glc", [({"anomer": "a", "cpos": 1, "ppos": 4}, gen.T(nm))])
+            else:
+                t = gen.T(nm, [({"anomer": "b", "cpos": 1, "ppos": 3}, gen.T("Gal"))])
+            ref = gen.render(t, "full")
+            base_i += 1
+            for k, v in {"full": ref, "ring": gen.render(spell_out(t, cv, vocab, rng, "ring"), "full"),
+                         "series": gen.render(spell_out(t, cv, vocab, rng, "series"), "full")}.items():
+                if k != "full" and v == ref:
+                    continue
+                jobs.append(v)
+                meta.append((base_i, k, ref, False))
     res = pmap(_smiles, jobs, chunk=4)
     refs = {}
     for (i, k, ref, ks), s, r in zip(meta, jobs, res):
